@@ -4,6 +4,9 @@
 # undo; output to DIR/check_output.txt.  /verif and /repo themselves are not touched.
 pid=$1; d=$2; shift 2
 S=/tmp/seedtest
+# bootstrap the private copies when absent (remove them afterwards: git -C /repo worktree remove --force $S/repo; rm -rf $S)
+[ -d $S/repo ] || { mkdir -p $S; git -C /repo worktree add -q --detach $S/repo HEAD; }
+[ -d $S/verif ] || git clone -q /verif $S/verif
 git -C $S/repo checkout -- . ; git -C $S/repo checkout -q --detach $(git -C /repo rev-parse HEAD)
 ( cd $S/verif && git reset -q --hard && git pull -q --no-edit /verif main >/dev/null 2>&1 )
 cd $S/repo || exit 2
